@@ -1583,3 +1583,97 @@ def rule_U9(ctx, rule: str = "U9") -> None:
                         "records: unknown #9, then known #1")
         else:
             ctx.inconclusive(rule, name, f"exit of the record loop under {texts} not recognised as end of input", mod.loc(br))
+
+
+# ---------------------------------------------------------------------------
+# M8 - a rejection raised while decoding reaches the caller
+
+
+DECODE_ENTRY = ("Message.parse", "Message.load", "Message.FromString", "parse_fields", "load_fields")
+DECODE_CALLEES = {"parse", "load", "FromString", "parse_fields", "load_fields", "load_varint", "decode_varint", "_postprocess_single", "_load_varint", "_parse"}
+_CATCHES_VALUE_ERROR = {"ValueError", "Exception", "BaseException"}
+
+
+def _always_raises(body: List[ast.stmt]) -> bool:
+    """every way through `body` ends in a raise"""
+    for st in body:
+        if isinstance(st, ast.Raise):
+            return True
+        if isinstance(st, ast.If) and st.orelse and _always_raises(st.body) and _always_raises(st.orelse):
+            return True
+        if isinstance(st, (ast.With,)) and _always_raises(st.body):
+            return True
+    return False
+
+
+def _decode_graph(mod: Module) -> Dict[str, ast.AST]:
+    """the functions of the runtime module reachable from the parse entry points through calls of module functions, methods on
+    self / cls and the nested-decode method names"""
+    seen: Dict[str, ast.AST] = {}
+    work = [q for q in DECODE_ENTRY if mod.has(q)]
+    by_last: Dict[str, List[str]] = {}
+    for q in mod.defs:
+        by_last.setdefault(q.split(".")[-1], []).append(q)
+    while work:
+        q = work.pop()
+        if q in seen:
+            continue
+        fn = mod.func(q)
+        seen[q] = fn
+        for c in ast.walk(fn):
+            if not isinstance(c, ast.Call):
+                continue
+            f = c.func
+            name = f.id if isinstance(f, ast.Name) else f.attr if isinstance(f, ast.Attribute) else None
+            if name is None:
+                continue
+            if isinstance(f, ast.Name) and mod.has(name) and isinstance(mod.defs[name][0], (ast.FunctionDef, ast.AsyncFunctionDef)):
+                work.append(name)
+            elif isinstance(f, ast.Attribute) and (name in DECODE_CALLEES or (isinstance(f.value, ast.Name) and f.value.id in ("self", "cls"))):
+                for cand in by_last.get(name, []):
+                    if "." in cand and isinstance(mod.defs[cand][0], (ast.FunctionDef, ast.AsyncFunctionDef)) and (cand.startswith("Message.") or cand.startswith("_")):
+                        work.append(cand)
+    return seen
+
+
+def rule_M8(ctx, rule: str = "M8") -> None:
+    """what a nested decode rejects, the outer decode rejects: no `try` on the parse call graph that encloses a decode call has a
+    handler for ValueError (or a superclass) that can complete without raising - the decoders signal field number 0, an
+    invalid wire type and an over-long varint with ValueError, and a handler that turns it into a value decodes malformed
+    input into a message"""
+    mod = ctx.repo.mod(M_INIT)
+    graph = _decode_graph(mod)
+    ctx.analysed(*sorted(graph))
+    n_try = 0
+    bad = []
+    for q, fn in sorted(graph.items()):
+        for t in ast.walk(fn):
+            if not isinstance(t, ast.Try):
+                continue
+            calls = []
+            for st in t.body:
+                for c in ast.walk(st):
+                    if isinstance(c, ast.Call):
+                        f = c.func
+                        name = f.id if isinstance(f, ast.Name) else f.attr if isinstance(f, ast.Attribute) else None
+                        if name in DECODE_CALLEES or (isinstance(f, ast.Name) and name in graph):
+                            calls.append(ast.unparse(c)[:60])
+            if not calls:
+                continue
+            n_try += 1
+            for h in t.handlers:
+                types = ["<bare>"] if h.type is None else [ast.unparse(e).split(".")[-1] for e in (h.type.elts if isinstance(h.type, ast.Tuple) else [h.type])]
+                caught = [x for x in types if x in _CATCHES_VALUE_ERROR or x == "<bare>"]
+                if caught and not _always_raises(h.body):
+                    bad.append((q, h, caught, calls[0]))
+    ctx.count(len(graph))
+    name = "decode-graph:rejections-propagate"
+    if bad:
+        q, h, caught, call = bad[0]
+        ctx.refuted(rule, name, f"{q}:{','.join(caught)}", mod.loc(h),
+                    f"{q} wraps the nested decode `{call}` in a try whose handler for {caught} can complete normally: the ValueError with which the nested decoder rejects field number 0, "
+                    "an invalid wire type or an over-long varint is swallowed and the malformed payload is decoded into a message with a substituted value",
+                    "a Timestamp / Duration sub-message whose payload is b'\\x00\\x00' (field number 0)")
+    else:
+        ctx.proved(rule, name, mod.rel, f"{len(graph)} functions on the parse call graph, {n_try} try statements around decode calls, none completes normally after catching ValueError")
+    ctx.floor(rule, "functions on the parse call graph", len(graph), 6)
